@@ -39,12 +39,13 @@ program that keeps lines out of the listing nor a judgement for rows WITHOUT uni
     definition with control parameters / call / REPT: IfAsm, IF stack, ActiveIF, NextDoLst, CodeLen, ListLine),
     Process (per-line reset, MakeList, DoLst = NextDoLst), PopFrame (MACRO_Restorer); declarative side ManualListed
     (manual: classes of lines, default / control parameters / override, NOSKIPPED / PURECODE), ShowsItsCode (the
-    property), TextIsOwn.  Named deviations of the code from the manual: LegacyIsOverride (the statement MACEXP
-    sets the override list, not the default one), SkippedNeedsRest, StaleActiveIF.
+    property), TextIsOwn.  Named deviations of the code from the manual: SkippedNeedsRest, (LegacyIsOverride -
+    the statement MACEXP set the override list, not the default one - is repaired in /repo and the model follows the manual), CallCountsAsMacro, StaleActiveIF.  Not
+    modelled: IFDEF / IFB / SWITCH-CASE, IRP / IRPC / WHILE, the texts of SECTION / STRUCT / bit definitions.
   * (M) ListingModes_MC: every program of 3 top-level statements (quick: 1 macro id, 2 bodies, 4 modifier lists,
-    25 k states; thorough: 3 ids, 5 bodies incl. nested call and REPT in a macro, 9 modifier lists, 6 control
-    parameter lists, 1.6 M states): CodeShown, TextOwn, ListedAsManual, Sane; ListingModes_MC_stale.cfg (ListLine
-    cleared only by a listed line) must be refuted by TLC.
+    25 k states; thorough: 3 ids, 5 bodies incl. nested call and REPT in a macro, 10 modifier lists and 9 control
+    parameter lists holding every modifier, 4.1 M states): CodeShown, TextOwn, ListedAsManual, Sane;
+    ListingModes_MC_stale.cfg (ListLine cleared only by a listed line) must be refuted by TLC.
   * (G) ListingModes_Gen: simulated programs of 14 top-level statements (weighted mix) with, for every processed
     line, listed or not and what the code column holds (rows by MakeListRows under the target / radix); `hot` =
     places where a hidden statement writes a text in front of a listed code line, programs with hot > 0 are
